@@ -1004,6 +1004,6 @@ func writeStats(path string, steps int, byOp map[string]int, distinct int) {
 		return
 	}
 	b, _ := json.Marshal(map[string]interface{}{"steps": steps, "behaviours": 1, "by_op": byOp, "distinct_outcomes": distinct,
-		"transient_retries": transientRetries, "transient_served": transientServed})
+		"transient_retries": transientRetries, "transient_served": transientServed, "timeout_retries": timeoutRetries})
 	_ = os.WriteFile(path, b, 0o644)
 }
